@@ -211,6 +211,17 @@ func validateArray(val reflect.Value, opts *options) error {
 	return nil
 }
 
+// validatorValue follows pointers: a value stored behind a (non-nil) pointer -
+// a pre-filled default of a pointer field, say - is validated like the value
+// itself, as it is when it comes from the configuration.
+func validatorValue(v interface{}) interface{} {
+	val := chaseValue(reflect.ValueOf(v))
+	if k := val.Kind(); k == reflect.Ptr || k == reflect.Interface || !val.CanInterface() {
+		return v
+	}
+	return val.Interface()
+}
+
 // validateNonZero implements the `nonzero` validation tag.
 // If nonzero is set, the validator is only run if field is present in config.
 // It checks for numbers and durations to be != 0, and for strings/arrays/slices
@@ -219,6 +230,7 @@ func validateNonZero(v interface{}, name string) error {
 	if v == nil {
 		return nil
 	}
+	v = validatorValue(v)
 
 	if d, ok := v.(time.Duration); ok {
 		if d == 0 {
@@ -252,6 +264,7 @@ func validatePositive(v interface{}, _ string) error {
 	if v == nil {
 		return nil
 	}
+	v = validatorValue(v)
 
 	if d, ok := v.(time.Duration); ok {
 		if d < 0 {
@@ -281,6 +294,7 @@ func validateMin(v interface{}, param string) error {
 	if v == nil {
 		return nil
 	}
+	v = validatorValue(v)
 
 	if d, ok := v.(time.Duration); ok {
 		min, err := param2Duration(param)
@@ -331,6 +345,7 @@ func validateMax(v interface{}, param string) error {
 	if v == nil {
 		return nil
 	}
+	v = validatorValue(v)
 
 	if d, ok := v.(time.Duration); ok {
 		max, err := param2Duration(param)
